@@ -88,21 +88,30 @@ def baseAttrs (c : Codec) (u : CUpdate) : List RAttr :=
     ++ (match u.mpr with | some m => [mprAttr c m] | none => [])
     ++ (match u.mpu with | some m => [mpuAttr c m] | none => [])
 
-def modifyAt (i : Nat) (f : RAttr → RAttr) : List RAttr → List RAttr
-  | [] => []
-  | a :: as => match i with
-    | 0 => f a :: as
-    | i + 1 => a :: modifyAt i f as
+/-- corruption `k` applied to the attribute at position `i` (other positions, and `unknown` / `trunc` / `nlribad`,
+    leave it alone) -/
+def applyOne (i : Nat) (a : RAttr) : Corr → RAttr
+  | .flags j f => if j = i then { a with flags := f } else a
+  | .data j d => if j = i then { a with data := d } else a
+  | .lenfield j n => if j = i then { a with lenOverride := some n } else a
+  | .dup j d => if j = i then { a with dup := some d } else a
+  | .omit j => if j = i then { a with present := false } else a
+  | .unknown _ _ _ => a
+  | .trunc _ => a
+  | .nlribad _ => a
 
-def applyCorr (l : List RAttr) : Corr → List RAttr
-  | .flags i f => modifyAt i (fun a => { a with flags := f }) l
-  | .data i d => modifyAt i (fun a => { a with data := d }) l
-  | .lenfield i n => modifyAt i (fun a => { a with lenOverride := some n }) l
-  | .dup i d => modifyAt i (fun a => { a with dup := some d }) l
-  | .omit i => modifyAt i (fun a => { a with present := false }) l
-  | .unknown f c d => l ++ [{ flags := f, code := c, data := d }]
-  | .trunc _ => l
-  | .nlribad _ => l
+/-- the attribute of `u` at position `i` after all corruptions (a later one of the same kind replaces an earlier one) -/
+def effAttr (cs : List Corr) (i : Nat) (o : RAttr) : RAttr := cs.foldl (applyOne i) o
+
+/-- the appended unrecognised attributes, in order -/
+def extraAttrs (cs : List Corr) : List RAttr :=
+  cs.filterMap fun k => match k with
+    | .unknown f c d => some { flags := f, code := c, data := d }
+    | _ => none
+
+def idxFrom : Nat → List RAttr → List (Nat × RAttr)
+  | _, [] => []
+  | n, a :: as => (n, a) :: idxFrom (n + 1) as
 
 def attrHdr (flags code len : Nat) : Bytes :=
   if flags &&& 0x10 ≠ 0 then [flags, code] ++ be16Bytes len else [flags, code, len % 256]
@@ -135,15 +144,10 @@ def wireItems (extra : Bool) (orig a : RAttr) : List WItem :=
                       origData := orig.data, firstData := a.data, lenOv := false }]
        | none => [])
 
-/-- the effective attribute list: the attributes of `u` (same positions) followed by the appended ones -/
-def effAttrs (c : Codec) (u : CUpdate) (cs : List Corr) : List RAttr := cs.foldl applyCorr (baseAttrs c u)
-
-/-- everything in the attribute block, in wire order -/
+/-- everything in the attribute block, in wire order: the attributes of `u` as corrupted, then the appended ones -/
 def blockItems (c : Codec) (u : CUpdate) (cs : List Corr) : List WItem :=
-  let base := baseAttrs c u
-  let eff := effAttrs c u cs
-  ((base.zip (eff.take base.length)).flatMap fun (o, a) => wireItems false o a)
-    ++ (eff.drop base.length).flatMap fun a => wireItems true a a
+  ((idxFrom 0 (baseAttrs c u)).flatMap fun (i, o) => wireItems false o (effAttr cs i o))
+    ++ (extraAttrs cs).flatMap fun a => wireItems true a a
 
 def truncTotal (cs : List Corr) : Nat :=
   cs.foldl (fun acc c => match c with | .trunc k => acc + k | _ => acc) 0
